@@ -76,8 +76,13 @@ impl MathOp {
             MathOp::Sub => x.wrapping_sub(y),
             MathOp::Xor => x ^ y,
             MathOp::Mul => x.wrapping_mul(y),
-            MathOp::Mulh | MathOp::Mulhsu => {
+            MathOp::Mulh => {
                 let (x, y) = (i64::from(x), i64::from(y));
+                ((x * y) >> 32) as i32
+            }
+            MathOp::Mulhsu => {
+                // signed x unsigned: the second operand is zero-extended
+                let (x, y) = (i64::from(x), i64::from(y as u32));
                 ((x * y) >> 32) as i32
             }
             MathOp::Mulhu => {
